@@ -148,6 +148,10 @@ func newPkg(pkg *packages.Package, u *Universe) Package {
 		}
 	}
 
+	// trailing comments seen so far: ast.Inspect visits a declaration before the
+	// comment groups attached to it
+	trailingCommentGroups := map[*ast.CommentGroup]bool{}
+
 	for i := range p.Package.Syntax {
 		f := p.Package.Syntax[i]
 
@@ -182,19 +186,26 @@ func newPkg(pkg *packages.Package, u *Universe) Package {
 					}
 				}
 			case *ast.CommentGroup:
-				collectCommentGroup(x, false, x.Pos())
+				// a trailing comment documents its own line, never the next one
+				if !trailingCommentGroups[x] {
+					collectCommentGroup(x, false, x.Pos())
+				}
 			case *ast.ValueSpec:
 				collectCommentGroup(x.Doc, false, x.Pos())
 				collectCommentGroup(x.Comment, true, x.Pos())
+				trailingCommentGroups[x.Comment] = true
 			case *ast.ImportSpec:
 				collectCommentGroup(x.Doc, false, x.Pos())
 				collectCommentGroup(x.Comment, true, x.Pos())
+				trailingCommentGroups[x.Comment] = true
 			case *ast.TypeSpec:
 				collectCommentGroup(x.Doc, false, x.Pos())
 				collectCommentGroup(x.Comment, true, x.Pos())
+				trailingCommentGroups[x.Comment] = true
 			case *ast.Field:
 				collectCommentGroup(x.Doc, false, x.Pos())
 				collectCommentGroup(x.Comment, true, x.Pos())
+				trailingCommentGroups[x.Comment] = true
 			}
 			return true
 		})
